@@ -106,3 +106,34 @@ Theorem C13_two_records_without_lock_refuted :
   t_azks s = 3 /\ nth_error (t_reqs s) 1 = Some (TDone 3 (Some 2)).
 Proof. exact two_records_without_lock_refuted. Qed.
 Print Assumptions C13_two_records_without_lock_refuted.
+
+(* ---- requests on the WRITING instance while a publish has its transaction open (TxnProto.v): reads see
+   the transaction's log; a request reads the epoch record and then node records as of it.  With the
+   epoch record read as committed (the fix) every answer names a committed epoch a with version a of
+   the node, or is an error - for every schedule, commits that succeed or are rejected.  With the epoch
+   record read through the log (the code before) three schedules found on the code are refuted. *)
+From Akd Require Import TxnProto.
+
+Theorem C13_requests_answer_committed_epochs : forall e0 n sched,
+  let s := xrun false (xinit e0 n) sched in
+  forall i a r, nth_error (x_reqs s) i = Some (UDone a r) -> a <= x_db s /\ (r = Some a \/ r = None).
+Proof. exact requests_answer_committed_epochs. Qed.
+Print Assumptions C13_requests_answer_committed_epochs.
+
+Theorem C13_dirty_epoch_read_refuted_early_close :
+  let s := xrun true (xinit 2 1) [XP; XP; XP; XR 0; XP; XR 0; XP] in
+  x_db s = 3 /\ nth_error (x_reqs s) 0 = Some (UDone 3 (Some 2)).
+Proof. exact dirty_epoch_read_refuted_early_close. Qed.
+Print Assumptions C13_dirty_epoch_read_refuted_early_close.
+
+Theorem C13_dirty_epoch_read_refuted_rejected_commit :
+  let s := xrun true (xinit 2 1) [XP; XP; XP; XR 0; XReject; XR 0] in
+  x_db s = 2 /\ nth_error (x_reqs s) 0 = Some (UDone 3 (Some 2)).
+Proof. exact dirty_epoch_read_refuted_rejected_commit. Qed.
+Print Assumptions C13_dirty_epoch_read_refuted_rejected_commit.
+
+Theorem C13_dirty_epoch_read_refuted_unpublished_epoch :
+  let s := xrun true (xinit 2 1) [XP; XP; XP; XR 0; XR 0; XReject] in
+  x_db s = 2 /\ nth_error (x_reqs s) 0 = Some (UDone 3 (Some 3)).
+Proof. exact dirty_epoch_read_refuted_unpublished_epoch. Qed.
+Print Assumptions C13_dirty_epoch_read_refuted_unpublished_epoch.
